@@ -165,6 +165,10 @@ SCHED_SETS = [
     [("INBOX", ["UID EXPUNGE 4", "NOOP"]), ("INBOX", ["UID EXPUNGE 2", "NOOP"])],
     [("INBOX", ["UID MOVE 4 other", "NOOP"]), ("INBOX", ["UID EXPUNGE 2", "NOOP"]), ("INBOX", ["NOOP"])],
     [("INBOX", ["UID STORE 1:* FLAGS (kwx)", "NOOP"]), ("INBOX", ["UID STORE 3 +FLAGS (\\Deleted)", "EXPUNGE", "NOOP"]), ("INBOX", ["EXPUNGE", "NOOP"])],
+    # a session selects the mailbox it already has selected (or examines it) while another session's removal is under way
+    [("INBOX", ["SELECT INBOX", "NOOP", "NOOP"]), ("INBOX", ["EXPUNGE", "NOOP"])],
+    [("INBOX", ["EXAMINE INBOX", "NOOP", "UID FETCH 1:* (FLAGS)"]), ("INBOX", ["UID EXPUNGE 2:4", "NOOP"]), ("INBOX", ["UID MOVE 1 other", "NOOP"])],
+    [("INBOX", ["NOOP", "SELECT INBOX", "CHECK"]), ("INBOX", ["UID STORE 1:* +FLAGS (\\Deleted)", "EXPUNGE"]), ("INBOX", ["APPEND INBOX", "NOOP"])],
 ]
 
 
@@ -216,9 +220,11 @@ def run_sched_shard(spec):
             counts["schedules"] += 1
             events += info.get("view_events", 0)
             counts["view_monitor_events"] += info.get("view_events", 0)
+            counts["final_view_size_checks"] += info.get("final_view_checks", 0)
+            counts["final_flag_belief_checks"] += info.get("final_flag_belief_checks", 0)
             hashes.add(common.h(holder["loop"].trace))
             if info.get("view_errors") and witness is None:
-                witness = {"kind": "view-monitor", "detail": str(info["view_errors"][:4]), "commands": cmdset, "schedule": list(holder["loop"].trace)[:200], "seed": sd, "strategy": strategy.__name__, "data": {}}
+                witness = {"kind": "view-monitor", "detail": str(info["view_errors"][:2])[:6000], "commands": cmdset, "schedule": list(holder["loop"].trace)[:200], "seed": sd, "strategy": strategy.__name__, "data": {}}
         counts["distinct_schedules"] += len(hashes)
         sample = {"commands": cmdset, "distinct_schedules": len(hashes), "view_monitor_events": events}
         if witness:
@@ -244,7 +250,7 @@ _plan_hist, _run_hist = plan, run_shard
 
 def plan(tier, seed, scale):
     specs = _plan_hist(tier, seed, scale)
-    n = int((32 if tier == "quick" else 600) * scale)
+    n = int((40 if tier == "quick" else 600) * scale)
     shards = 8 if tier == "quick" else 16
     for s in range(shards):
         specs.append({"prop": PROP, "tier": tier, "seed": seed, "shard": 100 + s, "mode": "sched", "scripts": list(range(n))[s::shards], "nsched": 5 if tier == "quick" else 25})
